@@ -677,14 +677,39 @@ func c10HijackNil(c *Ctx) {
 			b, fv, ok := fieldLoad(strip(v))
 			return ok && fv.Name() == f && strip(b) == tv
 		}
-		isStore := func(in ssa.Instruction) bool {
-			s, ok := in.(*ssa.Store)
-			if !ok {
+		var storesField func(in ssa.Instruction, tv ssa.Value, d int) bool
+		storesField = func(in ssa.Instruction, tv ssa.Value, d int) bool {
+			if s, ok := in.(*ssa.Store); ok {
+				b, fv, ok := fieldOfAddr(s.Addr)
+				return ok && fv.Name() == f && strip(b) == tv && !isNil(s.Val)
+			}
+			// a helper that is handed the tunnel and sets the field on every path (attachLegacyIn)
+			call, ok := in.(*ssa.Call)
+			if !ok || d > 0 {
 				return false
 			}
-			b, fv, ok := fieldOfAddr(s.Addr)
-			return ok && fv.Name() == f && strip(b) == tv && !isNil(s.Val)
+			h := call.Call.StaticCallee()
+			if h == nil || !IsFirstParty(h) || h.Blocks == nil {
+				return false
+			}
+			for i, a := range call.Call.Args {
+				if strip(a) != tv || i >= len(h.Params) {
+					continue
+				}
+				hp := ssa.Value(h.Params[i])
+				all := len(returnsOf(h)) > 0
+				for _, r := range returnsOf(h) {
+					if reachFromWithoutMarkerAvoiding(h.Blocks[0], r, func(x ssa.Instruction) bool { return storesField(x, hp, d+1) }, nil) {
+						all = false
+					}
+				}
+				if all {
+					return true
+				}
+			}
+			return false
 		}
+		isStore := func(in ssa.Instruction) bool { return storesField(in, tv, 0) }
 		if !reachWithoutMarkerAvoiding(fn, at, isStore, GNeq(isFld, anyNil)) {
 			return true
 		}
